@@ -42,7 +42,7 @@ async def _scenario(loop, kind, size, connect, abort, followup, *, delay=1.0, ta
     ctl = harness.Ctl()
     ctl.record = False
     if delay is not None:
-        ctl.delays = {"read": delay, "write": delay, "list.next": delay}
+        ctl.delays = {"read": delay, "write": delay, "list.next": delay, "_open": delay, "close": delay / 4}
     fac = instrument(aioftp.MemoryPathIO, ctl)
     server = aioftp.Server(path_io_factory=fac, block_size=BLOCK, wait_future_timeout=3)
     await server.start(HOST, PORT)
@@ -278,7 +278,7 @@ def grid(tier):
         sizes = [0, 1, BLOCK, 3 * BLOCK + 1] if kind in ("RETR", "STOR", "APPE") else [0, 1, 3]
         for size in sizes:
             nblocks = (size + BLOCK - 1) // BLOCK if kind in ("RETR", "STOR", "APPE") else size
-            horizon = nblocks * 1.0 + 2.5
+            horizon = nblocks * 1.0 + 4.0  # + open and close delays
             for connect in ("before", "late", "never"):
                 aborts = [-0.5, 0, 0.0005]
                 t = 0.5
